@@ -70,6 +70,13 @@ theorem getChunk_spec (raw : List (Nat × Nat × Nat)) (h : RawOK raw) (cmax c :
     (Stsc.ofRaw raw).getChunk c = some ⟨c, firstSampleOf raw c, spcOf raw c⟩ :=
   Stbl.getChunk_spec raw h cmax c hw h1 hc
 
+/-- **sample description id of a chunk** (= of every sample of the chunk): the id of the last stsc entry whose
+    first_chunk is not above the chunk number -/
+theorem getSampleDescriptionID_spec (raw : List (Nat × Nat × Nat)) (h : RawOK raw) (cmax c : Nat) (hw : NoWrap raw cmax)
+    (h1 : 1 ≤ c) (hc : c ≤ cmax) :
+    (Stsc.ofRaw raw).getSampleDescriptionID c = some (sdiOf raw c) :=
+  Stbl.getSampleDescriptionID_spec raw h cmax c hw h1 hc
+
 /-- **chunk of a sample** -/
 theorem chunkNrFromSampleNr_spec (raw : List (Nat × Nat × Nat)) (h : RawOK raw) (cmax c n : Nat) (hw : NoWrap raw cmax)
     (h1 : 1 ≤ c) (hc : c ≤ cmax) (hlo : firstSampleOf raw c ≤ n) (hhi : n < firstSampleOf raw (c + 1)) :
